@@ -29,6 +29,8 @@ pub struct Variant {
     /// 0: B = region byte (repeat/taken), 1: B=0,C=1 (BC==1: LDIR final), 2: B=1 (DJNZ/INIR final)
     pub counter: u8,
     pub odd_port: bool,
+    /// the CPU is already halted (only used with the HALT encoding): the step is one halted M1 cycle at PC
+    pub halted: bool,
 }
 
 pub struct Setup {
@@ -69,6 +71,7 @@ pub fn build(kind: u8, op: u8, p: &Placement, v: &Variant) -> Option<Setup> {
     r.hl_ = (hi(2, 3) as u16) << 8 | 0x40;
     r.im = 1;
     r.memptr = 0x0123;
+    r.halted = v.halted;
     Some(Setup { regs: r, code, len })
 }
 
@@ -253,7 +256,7 @@ fn sweep(ctx: &Ctx, e: &mut Emu, m128: bool, top_bank: u8, kind: u8, op: u8, p: 
                     "{} machine, encoding {} {:02x} (bytes {}), start T={} placement bits {:06b} (bases {:02x}/{:02x}, bank {} at C000), F={:02x} counter-variant {} odd-port {}: takes {} T, contention model says {} T (contended cycles: {})",
                     mach, kind_name(kind), op, crate::vcore::hex(&s.code[..s.len]), t, p.bits, p.cont_base, p.unc_base, top_bank, v.f, v.counter, v.odd_port, it, rt, kinds_key(&kinds)
                 ),
-                json!({"kind":"step","m128":m128,"bank":top_bank,"enc_kind":kind,"op":op,"t":t,"pbits":p.bits,"cont_base":p.cont_base,"unc_base":p.unc_base,"f":v.f,"counter":v.counter,"odd":v.odd_port}),
+                json!({"kind":"step","m128":m128,"bank":top_bank,"enc_kind":kind,"op":op,"t":t,"pbits":p.bits,"cont_base":p.cont_base,"unc_base":p.unc_base,"f":v.f,"counter":v.counter,"odd":v.odd_port,"halted":v.halted}),
             );
         }
     }
@@ -325,7 +328,7 @@ fn sweep_boundary(ctx: &Ctx, e: &mut Emu, m128: bool, top_bank: u8, kind: u8, op
                     "{} machine, encoding {} {:02x} (bytes {}), start T={}, address role {} (0 code, 1 nn, 2 HL/IX+d/IY+d, 3 BC/DE/A, 4 SP) placed at {:04x} next to a 16K window boundary (bank {} at C000), everything else in uncontended RAM, F={:02x} counter-variant {} odd-port {}: takes {} T, contention model says {} T (contended cycles: {})",
                     mach, kind_name(kind), op, crate::vcore::hex(&s.code[..s.len]), t, role, addr, top_bank, v.f, v.counter, v.odd_port, it, rt, kinds_key(&kinds)
                 ),
-                json!({"kind":"boundary","m128":m128,"bank":top_bank,"enc_kind":kind,"op":op,"t":t,"role":role,"addr":addr,"f":v.f,"counter":v.counter,"odd":v.odd_port}),
+                json!({"kind":"boundary","m128":m128,"bank":top_bank,"enc_kind":kind,"op":op,"t":t,"role":role,"addr":addr,"f":v.f,"counter":v.counter,"odd":v.odd_port,"halted":v.halted}),
             );
             break;
         }
@@ -422,7 +425,7 @@ fn variants() -> Vec<Variant> {
     for counter in 0..3u8 {
         for f in [0x00u8, 0xFF] {
             for odd in [false, true] {
-                v.push(Variant { f, counter, odd_port: odd });
+                v.push(Variant { f, counter, odd_port: odd, halted: false });
             }
         }
     }
@@ -444,14 +447,14 @@ pub fn run(tier: Tier, seed: u64, replay: Option<String>) -> i32 {
         }
         let mut o = BTreeSet::new();
         if c["kind"] == "boundary" {
-            let var = Variant { f: c["f"].as_u64().unwrap() as u8, counter: c["counter"].as_u64().unwrap() as u8, odd_port: c["odd"].as_bool().unwrap() };
+            let var = Variant { f: c["f"].as_u64().unwrap() as u8, counter: c["counter"].as_u64().unwrap() as u8, odd_port: c["odd"].as_bool().unwrap(), halted: c["halted"].as_bool().unwrap_or(false) };
             sweep_boundary(&ctx, e, m128, bank, c["enc_kind"].as_u64().unwrap() as u8, c["op"].as_u64().unwrap() as u8, &var, c["role"].as_u64().unwrap() as u8, c["addr"].as_u64().unwrap() as u16, &[c["t"].as_u64().unwrap() as usize], &mut o);
             let n = ctx.violation_classes();
             println!("replay: {} violation class(es) reproduced", n);
             return (n > 0) as i32;
         }
         let p = Placement { bits: c["pbits"].as_u64().unwrap() as u8, cont_base: c["cont_base"].as_u64().unwrap() as u8, unc_base: c["unc_base"].as_u64().unwrap() as u8 };
-        let var = Variant { f: c["f"].as_u64().unwrap() as u8, counter: c["counter"].as_u64().unwrap() as u8, odd_port: c["odd"].as_bool().unwrap() };
+        let var = Variant { f: c["f"].as_u64().unwrap() as u8, counter: c["counter"].as_u64().unwrap() as u8, odd_port: c["odd"].as_bool().unwrap(), halted: c["halted"].as_bool().unwrap_or(false) };
         sweep(&ctx, e, m128, bank, c["enc_kind"].as_u64().unwrap() as u8, c["op"].as_u64().unwrap() as u8, &p, &var, &[c["t"].as_u64().unwrap() as usize], &mut o);
         let n = ctx.violation_classes();
         println!("replay: {} violation class(es) reproduced", n);
@@ -473,7 +476,13 @@ pub fn run(tier: Tier, seed: u64, replay: Option<String>) -> i32 {
         let mut outcomes = BTreeSet::new();
         let mut seen_sigs: Vec<Vec<u8>> = Vec::new();
         let mut evals = 0u64;
-        for v in vars.iter() {
+        let halted_var = Variant { f: 0, counter: 0, odd_port: false, halted: true };
+        let mut vars_here: Vec<Variant> = vars.clone();
+        if kind == 0 && op == 0x76 {
+            // a CPU that is already halted: every further step is an M1 cycle at the HALT's address
+            vars_here.push(halted_var);
+        }
+        for v in vars_here.iter() {
             // skip variants that do not change the reference cycle shape
             let sig = {
                 let p = Placement { bits: 0, cont_base: 0x60, unc_base: 0x90 };
@@ -486,7 +495,7 @@ pub fn run(tier: Tier, seed: u64, replay: Option<String>) -> i32 {
                 let read = |a: u16| er.peek(a);
                 let (t, _) = ref_step(ULA48, Contended { w: [false; 4] }, 0, &s.regs, &read);
                 let (t2, k2) = ref_step(ULA48, Contended { w: [true; 4] }, ULA48.t0, &s.regs, &read);
-                let mut sg = vec![t as u8, t2 as u8];
+                let mut sg = vec![t as u8, t2 as u8, v.halted as u8];
                 sg.extend(k2.iter().map(|k| *k as u8));
                 sg
             };
@@ -556,7 +565,7 @@ pub fn run(tier: Tier, seed: u64, replay: Option<String>) -> i32 {
         rig::cpu_out(&mut w.e128, 0x8000, 0x7FFD, bank);
         let mut outcomes = BTreeSet::new();
         let mut evals = 0;
-        for v in [Variant { f: 0, counter: 0, odd_port: false }, Variant { f: 0, counter: 0, odd_port: true }] {
+        for v in [Variant { f: 0, counter: 0, odd_port: false, halted: false }, Variant { f: 0, counter: 0, odd_port: true, halted: false }] {
             // the probed role lives at C0xx+, all other roles at 90xx (uncontended)
             let p = Placement { bits: 1 << role, cont_base: 0xC8, unc_base: 0x90 };
             evals += sweep(&ctx, &mut w.e128, true, bank, kind, op, &p, &v, &ts128, &mut outcomes);
@@ -569,7 +578,7 @@ pub fn run(tier: Tier, seed: u64, replay: Option<String>) -> i32 {
             rig::cpu_out(&mut e, 0x8000, 0x7FFD, 0x20 | bank);
             rig::cpu_out(&mut e, 0x8000, 0x7FFD, bank ^ 1);
             PAGING_LOCKED.with(|l| l.set(true));
-            for v in [Variant { f: 0, counter: 0, odd_port: false }, Variant { f: 0, counter: 0, odd_port: true }] {
+            for v in [Variant { f: 0, counter: 0, odd_port: false, halted: false }, Variant { f: 0, counter: 0, odd_port: true, halted: false }] {
                 let p = Placement { bits: 1 << role, cont_base: 0xC8, unc_base: 0x90 };
                 evals += sweep(&ctx, &mut e, true, bank, kind, op, &p, &v, &tb128_layer1, &mut outcomes);
             }
@@ -587,7 +596,7 @@ pub fn run(tier: Tier, seed: u64, replay: Option<String>) -> i32 {
     ctx.note("start_t_states_128k", json!(ts128.len()));
     ctx.note("t_coverage", json!(if quick { "complete windows: frame start, first picture line +-, line 96, lines 190-192 edge, frame end" } else { "every T-state of the frame" }));
     ctx.finish(
-        "for every encoding x every timing variant (flags 00/FF x counter variants x port parity; variants with identical reference cycle shape merged) x every contended/uncontended assignment of the address roles the encoding uses (code, nn operand, HL/IX/IY, BC/DE/A as pointer and port high byte, SP, I) x {48K,128K} x every start T of the T set: one single step on the real Emulator (frame clock placed through the hook) and on RefZ80+RefULA; elapsed T must be equal; boundary layer: each address role the encoding uses placed at -3..+2 around every 16K window boundary (4000, 8000, C000 and the FFFF/0000 wrap with contended bank 1 at C000; code straddling 8000/C000) so that an access made one or two bytes off its proper address changes window, over all contention phases at the start and the end of the contended part of a picture line; plus 10 cycle-kind probes with the address at 0xC000 under all eight 128K banks, each also on a machine that locked paging on that bank and then received an (ignored) write for a bank of the other contention class. distinct = distinct (elapsed, phase) outcomes per encoding",
+        "for every encoding x every timing variant (flags 00/FF x counter variants x port parity, HALT also with the CPU already halted; variants with identical reference cycle shape merged) x every contended/uncontended assignment of the address roles the encoding uses (code, nn operand, HL/IX/IY, BC/DE/A as pointer and port high byte, SP, I) x {48K,128K} x every start T of the T set: one single step on the real Emulator (frame clock placed through the hook) and on RefZ80+RefULA; elapsed T must be equal; boundary layer: each address role the encoding uses placed at -3..+2 around every 16K window boundary (4000, 8000, C000 and the FFFF/0000 wrap with contended bank 1 at C000; code straddling 8000/C000) so that an access made one or two bytes off its proper address changes window, over all contention phases at the start and the end of the contended part of a picture line; plus 10 cycle-kind probes with the address at 0xC000 under all eight 128K banks, each also on a machine that locked paging on that bank and then received an (ignored) write for a bank of the other contention class. distinct = distinct (elapsed, phase) outcomes per encoding",
         true,
         &["placing the frame clock through verif_set_frame_clocks assumes contention depends on the clock value only (C05 runs whole frames without placing the clock as the control)", "RefULA is the literal formula of the property text"],
     )
